@@ -523,6 +523,16 @@ def NoNestedSuffix (S : RSet) : Prop :=
     (i, pre ++ Tok.par s1 :: t1) ∈ S → (j, pre ++ Tok.par s2 :: t2) ∈ S →
     s1 = s2 ∨ (¬ s1 <:+ s2 ∧ ¬ s2 <:+ s1)
 
+/-- Do two routes carry nested parameter suffixes at the first position where they differ? -/
+def nestedSuffix : List Tok → List Tok → Bool
+  | .par s1 :: t1, .par s2 :: t2 =>
+    if s1 = s2 then nestedSuffix t1 t2 else (s1.isSuffixOf s2 || s2.isSuffixOf s1)
+  | x :: t1, y :: t2 => if x = y then nestedSuffix t1 t2 else false
+  | _, _ => false
+
+/-- Decision procedure for `NoNestedSuffix`. -/
+def noNestedSuffixB (S : RSet) : Bool := S.all (fun a => S.all (fun b => !nestedSuffix a.2 b.2))
+
 /-- `Router::at(path)` for a router holding `routes` (value, pattern). -/
 def atRoutes (routes : List (Nat × List Char)) (path : List Char) : Option Nat :=
   atGo (routes.map (fun r => (r.1, toks r.2))) path
